@@ -27,8 +27,6 @@ class MiniSpec:
         w = op.split()
         c, s = w[0], int(w[1])
         l = self.l[s]
-        if c == "SN":
-            return len(l) <= int(w[2])
         if c == "IA":
             i = int(w[2])
             return i == 0 or i > len(l) + 1
@@ -102,13 +100,13 @@ ALPHABETS = {
     # copy / move between two containers
     "copy": ["AD 0 1", "AD 1 2", "CC 1 0", "MC 0 1", "CA 0 1", "MA 1 0", "RA 0 1", "FR 1"],
     # the index / count based operations
-    "count": ["AF 0", "AN 0 3", "AA 0 3 2", "SN 0 2", "SU 0 1 3", "SU 0 4 3", "RP 0 1", "SO 0", "AD 0 2"],
+    "count": ["AF 0", "AN 0 3", "AA 0 3 2", "SN 0 2", "SN 0 0", "SU 0 1 3", "SU 0 4 3", "RP 0 1", "SO 0", "AD 0 2"],
     # the rest: one letter per remaining operation / early return
     "misc": ["AD 0 3", "AD 0 1", "IA 0 9 1", "IA 0 0 1", "SA 0 1 2", "RA 0 0", "RA 0 7", "RP 0 0", "OA 0 1", "OA 0 2",
              "IO 0 1", "IL 0 3", "RS 0 0", "RS 0 5", "CT 0", "CN 0 3", "CN 0 0", "CA 0 0", "MA 0 0", "AA 0 1 2",
              "AA 0 0 2", "SN 0 0", "SN 0 3", "CC 0 0", "MC 1 1"],
     # the defective operations (only with defects enabled)
-    "defect": ["AD 0 1", "AD 0 2", "IA 0 1 3", "IA 0 2 3", "SN 0 1", "SN 0 0", "RS 0 0", "RA 0 1", "SH 0", "CC 1 0"],
+    "defect": ["AD 0 1", "AD 0 2", "IA 0 1 3", "IA 0 2 3", "SN 0 1", "RS 0 0", "RA 0 1", "SH 0", "CC 1 0"],
 }
 
 
@@ -132,7 +130,7 @@ class C18con(vlib.HistoryProp):
                 "SetNumObjectsUninitialized/AddressOfObjectAt/AddObjectUninitialized are used in their callers' protocol (client destructs/constructs the elements)",
                 "qsort is modelled as a sorting function on the values",
                 "MaxObjects() is compared between model and implementation only (not part of the list specification)",
-                "known-defective operations (SetNumObjects below the length, InsertObjectAt at a valid position, Resize(0) of a non-empty container) are generated only when "
+                "known-defective operations (InsertObjectAt at a valid position, Resize(0) of a non-empty container) are generated only when "
                 "%s=1 or known_findings.json lists them; the theorem covers every history that avoids them" % DEFECT_ENV]
 
     def defects_enabled(self):
@@ -193,9 +191,7 @@ class C18con(vlib.HistoryProp):
         if r < 0.54:
             return "RS %d %d" % (s, rng.choice([0, 1, max(n - 1, 0), n, n + 1, 2 * n, 2 * n + 2, rng.randrange(12)]))
         if r < 0.58:
-            if defects:
-                return "SN %d %d" % (s, rng.choice([0, max(n - 1, 0), n, n + 1, n + 3]))
-            return "SN %d %d" % (s, rng.choice([n, n + 1, n + 2, n + 4]))
+            return "SN %d %d" % (s, rng.choice([0, max(n - 1, 0), max(n - 2, 0), n, n + 1, n + 3]))
         if r < 0.62:
             return "SU %d %d %d" % (s, rng.choice([0, max(n - 1, 0), max(n - 2, 0), n, n + 1, n + 3]), v)
         if r < 0.65:
@@ -323,8 +319,8 @@ HP = C18con()
 
 
 def check(res, tier, seed):
-    res.cov["rule"] += ("C18con: corpus first; every history of length 4 (quick) / 6 (thorough) over three 8-9 letter alphabets on 2 containers "
-                        "(growth/removal/search/shrink; copy/move construction and assignment; count- and index-based operations) and of length 2 / 3 over a "
+    res.cov["rule"] += ("C18con: corpus first; every history of length 4 (quick) / 6 (thorough) over three 8-10 letter alphabets on 2 containers "
+                        "(growth/removal/search/shrink; copy/move construction and assignment; count- and index-based operations incl. SetNumObjects below the length) and of length 2 / 3 over a "
                         "25-letter alphabet with one letter per remaining operation and early return; seeded random walks over all 26 operations on 2-3 "
                         "containers with values from a 4-key universe, indices at 0, 1, n-1, n, n+1, n+2 and sizes at the growth steps, up to 10^4 operations; "
                         "observation after every operation: return value / exception, contents of every container, live-element counter, lifetime-error counter, "
